@@ -213,7 +213,7 @@ pub fn sched_strategy(bytes: usize) -> BoxedStrategy<Sched> {
     let walk = (prop_oneof![Just(0u8), Just(64u8), Just(128u8), Just(192u8), Just(224u8)], vec(any::<u8>(), 0..=bytes), prop::bool::ANY).prop_map(|(stay, bytes, t)| Sched::Walk { stay, bytes, tail: if t { Tail::RoundRobin } else { Tail::Stay } });
     let pct_s = (vec(any::<u8>(), 0..=10), vec((0u8..10, 0u16..120, 0u8..40), 0..=4)).prop_map(|(prio, changes)| Sched::Pct { prio, changes });
     let delay = (vec((0u8..10, 0u16..150, any::<u8>()), 0..=5), prop::bool::ANY).prop_map(|(points, rr)| Sched::Delay { points, rr });
-    prop_oneof![5 => walk, 2 => pct_s, 3 => delay].boxed()
+    prop_oneof![4 => walk, 3 => pct_s, 3 => delay].boxed()
 }
 
 pub fn cfg_strategy(p: &Profile) -> BoxedStrategy<Cfg> {
@@ -225,8 +225,9 @@ pub fn cfg_strategy(p: &Profile) -> BoxedStrategy<Cfg> {
         (pct(p.pre_open_pct), vec(any::<u8>(), 1..=2)),
         pct(p.root_holds_pct),
         pct(p.double_wake_pct),
+        pct(40),
     )
-        .prop_map(|((pool, objects, gates, streams), q, unlock_points, (sp, spv), (po, pov), root_holds, double_wake)| Cfg {
+        .prop_map(|((pool, objects, gates, streams), q, unlock_points, (sp, spv), (po, pov), root_holds, double_wake, gate_keep_all)| Cfg {
             pool,
             objects,
             gates,
@@ -237,6 +238,7 @@ pub fn cfg_strategy(p: &Profile) -> BoxedStrategy<Cfg> {
             pre_open: if po { pov } else { vec![] },
             root_holds,
             double_wake,
+            gate_keep_all,
         })
         .boxed()
 }
